@@ -513,7 +513,8 @@ Finish ==
   /\ phase = "build" /\ HasMember /\ pick = ""
   /\ Mode = "gen" => Len(ms) = want
   /\ st' = IFinish(st, Devs)
-  /\ pool' = IF Mode = "gen" THEN LET D == DL(Current, FALSE) IN Append(pool, [t |-> Current, al |-> D.align, fx |-> D.flex])
+  /\ pool' = IF Mode = "gen"       \* al: alignment on every target (an _Alignas below it would be a constraint violation on aarch64)
+             THEN LET D == DL(Current, TRUE) IN Append(pool, [t |-> Current, al |-> D.align, fx |-> D.flex])
              ELSE pool
   /\ phase' = IF Mode = "gen" /\ Len(pool) + 1 < MaxPool THEN "idle" ELSE "done"
   /\ (Emit /\ Mode = "gen") => PrintT("VCASE " \o ToJson(Current))
